@@ -122,8 +122,8 @@ def snapshot(x):
         return np.array(x, copy=True)
     if hasattr(x, "vertices"):   # a mesh argument: coordinates and attribute names
         return ("mesh", [[float(t) for t in p] for p in x.vertices],
-                {n: sorted(getattr(x, n).attributes) for n in ("vertices", "edges", "faces", "face_corners") if hasattr(x, n)},
-                [[int(t) for t in f] for f in x.faces] if hasattr(x, "faces") else None)
+                [[int(t) for t in f] for f in x.faces] if hasattr(x, "faces") else None,
+                [[int(t) for t in e] for e in x.edges] if hasattr(x, "edges") else None)
     if isinstance(x, list):
         return [snapshot(t) for t in x]
     return x
@@ -272,7 +272,7 @@ def main():
             m2 = call(c, M)
             ob2 = observe(m2)
             ob["fresh"] = {"same_object": m2 is m, "shared": shares_storage(m, m2),
-                           "second_equal": all(ob2.get(k) == ob.get(k) for k in ("type", "V", "X", "F", "E", "C", "vattrs", "fattrs", "uv")),
+                           "second_equal": all(ob2.get(k) == ob.get(k) for k in ("V", "X", "F", "E", "C")),
                            "second": None}
             if not ob["fresh"]["second_equal"]:
                 ob["fresh"]["second"] = {k: ob2.get(k) for k in ("type", "V", "F")}
